@@ -561,8 +561,12 @@ func main() {
 		probe()
 		return
 	}
+	if len(os.Args) > 1 && os.Args[1] == "conc" {
+		concMain(os.Args[2:])
+		return
+	}
 	if len(os.Args) < 2 || os.Args[1] != "hist" {
-		vx.Die("usage: hx-c09 hist --n N --len L --seed S --out cases.v --stats stats.json [--replay file]")
+		vx.Die("usage: hx-c09 hist --n N --len L --seed S --out cases.v --stats stats.json [--replay file] | hx-c09 conc --rounds R --ms MS --seed S --stats stats.json [--replay file --repeat K]")
 	}
 	fs := flag.NewFlagSet("hist", flag.ExitOnError)
 	n := fs.Int("n", 300, "")
